@@ -140,6 +140,8 @@ static TPM_RESULT TPM2_MainInit(void)
                 TPMLIB_LogTPM2Error("%s: TPM_Manufacture(TRUE) failed or TPM in "
                                     "failure mode\n", __func__);
                 reportedFailureCommand = TRUE;
+                if (ret == TPM_SUCCESS)
+                    ret = TPM_FAIL;
             } else {
                 g_wasManufactured = TRUE;
             }
@@ -161,7 +163,8 @@ static TPM_RESULT TPM2_MainInit(void)
     }
 
     if (ret == TPM_SUCCESS && has_cached_state) {
-        NvCommit();
+        if (!NvCommit())
+            ret = TPM_FAIL;
     }
 
     return ret;
